@@ -107,7 +107,7 @@ class IdentityLinearOperator(ConstantDiagLinearOperator):
     def _mul_constant(
         self: Float[LinearOperator, "*batch M N"], other: Union[float, torch.Tensor]
     ) -> Float[LinearOperator, "*batch M N"]:
-        return ConstantDiagLinearOperator(self.diag_values * other, diag_shape=self.diag_shape)
+        return ConstantDiagLinearOperator(self.diag_values * other.unsqueeze(-1), diag_shape=self.diag_shape)
 
     def _permute_batch(self, *dims: int) -> LinearOperator:
         batch_shape = self.diag_values.permute(*dims, -1).shape[:-1]
